@@ -88,8 +88,8 @@ theorem ebvL_ok (v : Seq) : ebvL ⟨v, none⟩ = ebv v := by
   | .bool _ :: _ => simp [ebvL]
   | .untyped _ :: _ => simp [ebvL]
 
-theorem applyFn1L_ok (sm : Summation) (doc : List String) (f : Fn1) (v : Seq) :
-    applyFn1L sm doc f ⟨v, none⟩ = LSeq.ofR (applyFn1 sm doc f v) := by
+theorem applyFn1L_ok (sm : Summation) (cl : Coll) (doc : List String) (f : Fn1) (v : Seq) :
+    applyFn1L sm cl doc f ⟨v, none⟩ = LSeq.ofR (applyFn1 sm cl doc f v) := by
   cases f <;> simp only [applyFn1L, applyFn1, LSeq.force, LSeq.stream, ebvL_ok, Except.bind]
   case head => cases v <;> rfl
   case exists_ => cases v <;> rfl
